@@ -245,7 +245,7 @@ var c12Hosts = []string{
 	"function f ( a , b ) {\n return a + b\n}\nBEGIN {\n x = [ 1 , 2 ]\n print f ( 1 , 2 ) , x [ 0 ]\n}",
 	"BEGIN {\n o = { k : 1 , j : [ 2 ] } ; n = 0\n for ( k , v in o ) {\n  n ++\n  if ( n > 1 ) {\n   break\n  } else {\n   continue\n  }\n }\n}",
 	"{\n r = match ( $ ) { 1 , 2 => \"low\" , [ p , q ] => p , _ => {\n  next\n } }\n print r ; print $index\n}\nEND {\n exit\n}",
-	"BEGIN {\n for ( i = 0 ; i < 2 ; i ++ ) {\n  while ( ! done ) {\n   done = i >= 0 && true || false\n  }\n }\n printf ( \"%s %v\\n\" , \"a\" , - 1 )\n}",
+	"BEGIN {\n for ( i = 0 ; i < 2 ; i ++ ) {\n  while ( ! done ) {\n   done = i >= 0 && true || false\n  }\n }\n printf ( \"%s-%v\\n\" , \"a\" , - 1 )\n}",
 	"$ . a > 0 {\n s = $ . a . b [ 0 ] . length ( )\n t = s is number\n u = \"x\" ~ /x+/\n}",
 }
 
